@@ -23,11 +23,14 @@ fn build(
     flush_us: u64,
 ) -> (BackgroundQueue<IdEntry>, metrique_writer::sink::BackgroundQueueJoinHandle, Arc<Counts>) {
     let counts = Arc::new(Counts::default());
-    let (q, h) = BackgroundQueueBuilder::new()
-        .capacity(capacity)
-        .flush_interval(Duration::from_micros(flush_us))
-        .metrics_recorder_local::<dyn metrics::Recorder, _>(CountingRecorder(counts.clone()))
-        .build::<IdEntry>(sh.stream());
+    // the capacity is set first, last or in the middle of the other builder calls
+    let b = BackgroundQueueBuilder::new();
+    let b = match (capacity + flush_us as usize) % 3 {
+        0 => b.capacity(capacity).thread_name("c09-writer").metric_name("c09").shutdown_timeout(Duration::from_secs(20)).flush_interval(Duration::from_micros(flush_us)),
+        1 => b.thread_name("c09-writer").flush_interval(Duration::from_micros(flush_us)).capacity(capacity).metric_name("c09"),
+        _ => b.flush_interval(Duration::from_micros(flush_us)).metric_name("c09").shutdown_timeout(Duration::from_secs(20)).thread_name("c09-writer").capacity(capacity),
+    };
+    let (q, h) = b.metrics_recorder_local::<dyn metrics::Recorder, _>(CountingRecorder(counts.clone())).build::<IdEntry>(sh.stream());
     (q, h, counts)
 }
 
